@@ -113,6 +113,15 @@ func c07Corpus(w *Worker, base []*genCase) []*genCase {
 			add(alls, gen.NoAction)
 		}
 	}
+	// references written with a leading zero in rules of twelve symbols: $010 is the tenth symbol
+	long := gram.Parse("S", []string{"TA", "TB"}, "S: X | S X ; X: TA TB TA TA TB TB TA TB TA TB TA Y ; Y: TB | ")
+	for _, tag := range []string{"s", "n"} {
+		t := gen.Tags{}
+		for _, x := range append(long.Terminals(), long.Nonterminals()...) {
+			t[x] = tag
+		}
+		out = append(out, &genCase{Origin: "family:twelve-symbols [references with a leading zero]", Spec: long, Tags: t, Shape: gen.Padded})
+	}
 	if w.Shard == 0 {
 		w.Count("c07_base_grammars", int64(n))
 	}
@@ -181,7 +190,7 @@ func normLine(s string) string { return strings.Join(strings.Fields(s), " ") }
 
 func c17GenJudge(w *Worker, o *obs, variants []string, bad func(kind, variant, in, msg string, detail map[string]interface{})) {
 	dense := lrm.Dense(o.vw.V)
-	packed := lrm.Packed(o.vw.V)
+	packed := packedIfIntact(w, o.vw.V)
 	// "a legal run of the grammar's LR automaton": where the declarations decide every cell, the
 	// reference table says which reductions a legal run makes on each input, rejected ones included
 	var refM *lrm.Machine
@@ -218,8 +227,17 @@ func c17GenJudge(w *Worker, o *obs, variants []string, bad func(kind, variant, i
 			}
 			want := o.expectedTrace(m, in)
 			var got []string
+			nestedDepth := 0
 			for _, l := range strings.Split(r.Trace, "\n") {
-				if strings.TrimSpace(l) != "" {
+				switch strings.TrimSpace(l) {
+				case "<nested-parse>":
+					nestedDepth++
+					continue
+				case "</nested-parse>":
+					nestedDepth--
+					continue
+				}
+				if nestedDepth == 0 && strings.TrimSpace(l) != "" {
 					got = append(got, l)
 				}
 			}
